@@ -219,6 +219,10 @@ def run_case(case, ctx):
             if known and not rec_rm:
                 out.append(viol('C14 removal not recommended although the algorithm exists in this version by numeric order (%s)' % product,
                                 '%s %s versions=%r banner=%s' % (cat, name, gen.db()['ssh2'][cat][key][0], prof['banner'])))
+            if not known and rec_rm and key in gen.db()['ssh2'][cat]:
+                # "exactly when": an algorithm that the database dates after this version does not count as available, advertised or not
+                out.append(viol('C14 removal recommended although the algorithm appeared after this version by numeric order (%s)' % product,
+                                '%s %s versions=%r banner=%s' % (cat, name, gen.db()['ssh2'][cat][key][0], prof['banner'])))
         keys.append(h(product, version, case['patch']))
     return {'violations': out, 'keys': keys, 'counters': {'product_' + product: 1, 'recognised': 1 if recognised else 0}}
 
